@@ -247,7 +247,7 @@ func runTPCRetry(c *core.Ctx) {
 }
 
 func init() {
-	register(&core.Rule{ID: "TPC-COMMITTED-ONLY", Props: []string{"C11"}, Floor: 2,
+	register(&core.Rule{ID: "TPC-COMMITTED-ONLY", Props: []string{"C11", "C01"}, Floor: 2,
 		Doc: "what a 2PC replica tells others about the decided state (reject replies, GetState replies) is its committed value (oldValue) and version - never the working copy of a section in flight; proposals (PreCommit / Commit requests) carry the working copy, the Abort request carries none",
 		Run: runTPCCommittedOnly})
 }
